@@ -13,13 +13,14 @@ from core.common import f2b, b2f, close
 from core import impl as I
 
 ID = "C06"
-LEAN_MODULES = ["AcnProofs.C06", "AcnProofs.Lemmas.FeasFindings"]
+LEAN_MODULES = ["AcnProofs.C06", "AcnProofs.Lemmas.FeasConvex", "AcnProofs.Lemmas.FeasFindings"]
 DRIVER = "drv_C06"
 REQUIRED_THEOREMS = [
-    "Acn.C06.net_feasible_iff", "Acn.C06.net_infeasible_of_neg_bound", "Acn.C06.net_feasible_iff_fin", "Acn.C06.net_feasible_iff_phasor",
+    "Acn.C06.net_feasible_iff", "Acn.C06.net_infeasible_of_neg_bound", "Acn.C06.net_feasible_iff_fin", "Acn.C06.net_feasible_iff_phasor", "Acn.C06.constraint_current_select",
     "Acn.C06.three_agree", "Acn.C06.linear_modes_agree", "Acn.C06.iface_rejects_ragged",
     "Acn.C06.three_agree_entry", "Acn.C06.no_constraints_feasible", "Acn.C06.infra_of_unconstrained_ok",
     "Acn.C06.linear_conservative", "Acn.C06.linear_conservative_entry", "Acn.C06.gen_tolerances",
+    "Acn.Feas.algFeasible_convex", "Acn.Feas.algFeasible_interval",
 ]
 BUDGET = {"quick": 900, "thorough": 12000, "search": 6000}
 TRUSTED = [
